@@ -425,7 +425,15 @@ def accept_case(case, rec, ssj):
         call['comp_op'] = rng.choice(['>=', '<=', '=', '!='])
         call['allow_missing'] = am
     if entry == 'profile':
-        call = {'api': 'profile', 'ltable': L, 'profile_attrs': rng.choice([None, ['lattr'], ['lid', 'lx']])}
+        # either table (different column names), with the attribute list given, None, or omitted
+        side = rng.choice('lr')
+        tbl = L if side == 'l' else R
+        call = {'api': 'profile', 'ltable': tbl}
+        r = rng.random()
+        if r < 0.3:
+            call['profile_attrs'] = None
+        elif r < 0.6:
+            call['profile_attrs'] = rng.choice([[side + 'attr'], [side + 'id', side + 'x']])
     rec.count('acceptance_cases')
     tag = '%s left=%s right=%s dtype=%s allow_missing=%r n_jobs=%r: ' % (entry, ls, rs, dtype, am, case['n_jobs'])
     try:
